@@ -6,7 +6,7 @@ MANIFEST.json is generated from this table by `./check --gen-manifest`.
 HOOKS = {
     "guard": "verif-hooks",
     "enable": "cargo feature `verif-hooks` on the hooked crates, enabled only by the /verif/harness crates that need it (path dependencies on /repo/crates/*); the repository workspace never enables it",
-    "baseline_off_cmd": "cd /repo && cargo nextest run --workspace --no-fail-fast --test-threads 8 --offline || cargo test --workspace --no-fail-fast --offline",
+    "baseline_off_cmd": "cd /repo && (cargo nextest run --workspace --no-fail-fast --tool-config-file pb:/w/lib/nextest.toml --profile pb --test-threads 8 --offline || cargo test --workspace --no-fail-fast --offline)",
     "source_commits": [],
     "add_only": True,
 }
